@@ -288,6 +288,9 @@ def run(ctx):
     rr = mm.methods.get("remove_active_register")
     ok = ar is not None and rr is not None and any(isinstance(c, ast.Call) and A.norm(c.func) == "self._active_registers.add" for c in ast.walk(ar)) and any(isinstance(c, ast.Call) and A.norm(c.func) in ("self._active_registers.remove", "self._active_registers.discard") for c in ast.walk(rr))
     ctx.check("C14.A3", "MemoryManager:add/remove-active-register", ok, "add_active_register/remove_active_register do not add to / remove from the active set", mm.loc())
+    # 0 is an ordinary id / value / address: nothing int-valued may be tested by truthiness (nqsa/truth.py)
+    from .. import truth
+    truth.check(ctx, "C14.Z", ['netqasm.sdk.memmgr', 'netqasm.sdk.futures'])
 
 
 B = "netqasm/sdk/builder.py"
